@@ -44,12 +44,6 @@ def build(variant="asan"):
     return core.build_harness(b, "c16", ["c16.cpp"], extra_flags=["-I" + d])
 
 
-def run16(exe, cases):
-    """cases: (id, mode, text) -> {id: {rc, F:{key:value}, E:[(path,msg)], W:[...], walk:[...]}}"""
-    res, crashes = C08.run_batch.__wrapped__(exe, cases) if hasattr(C08.run_batch, "__wrapped__") else _run(exe, cases)
-    return res, crashes
-
-
 def _run(exe, cases):
     from concurrent.futures import ThreadPoolExecutor
     nproc = min(core.NCPU, 12)
@@ -301,6 +295,7 @@ def run(ctx):
         ctx.finding("crash:" + C08.crash_site(err, rc), what, {"stderr": err, "input_b64": base64.b64encode(dead[2].encode()).decode() if dead else None})
     # compare -----------------------------------------------------------------------------------------------------------
     disturbed = []      # (cid, what)
+    diagkey = {}
     n_cmp = 0
     dist = {}
     synt = sem = 0
@@ -335,6 +330,7 @@ def run(ctx):
             if other(use["E"]) != other(ref["E"]) or other(use["W"]) != other(ref["W"]):
                 extra = [x for x in other(use["E"]) + other(use["W"]) if x not in other(ref["E"]) + other(ref["W"])]
                 bad = "diagnostic attributed to another block: %s (faulted block %s)" % (extra[:2], path)
+                diagkey[cid] = extra[0][1].strip('"').split(":")[0] if extra else "missing"
         if bad:
             disturbed.append((cid, bad))
     cov["correspondence_cases"] = n_cmp
@@ -349,8 +345,14 @@ def run(ctx):
         if not fb or not rb or not fb["done"] or not rb["done"]:
             continue
         n_decl += 1
+        # variables declared in the <system> block follow the global declarations in the same list: not part of the prefix
+        nsys = sum(1 for x in seeds[si]["system"] if re.match(r"(int|bool|clock|chan)\b", x)) if pre == "G" else 0
+        nvar = len([k for k in rb["F"] if re.match(re.escape(pre) + r"\.var\d+$", k)]) - nsys
         for fk, fv in rb["F"].items():
-            if re.match(re.escape(pre) + r"\.(var|fun|typedef)\d+$", fk) and fb["F"].get(fk) != fv:
+            mm = re.match(re.escape(pre) + r"\.(var|fun|typedef)(\d+)$", fk)
+            if mm and mm.group(1) == "var" and int(mm.group(2)) >= nvar:
+                continue
+            if mm and fb["F"].get(fk) != fv:
                 dbad.append((cid, "declaration %s before the faulted one changed: %s -> %s" % (fk, fv[:150], str(fb["F"].get(fk))[:150])))
                 break
     cov["declaration_prefix_cases"] = n_decl
@@ -366,7 +368,8 @@ def run(ctx):
         for cid, what in disturbed:
             tl = tres.get(cid, [])
             shape = unmatched_push(tl) if tl else None
-            k = "leak:frame:" + shape if shape else "disturbance:%s:%s" % (meta[cid][1][3], meta[cid][2])
+            k = "leak:frame:" + shape if shape else ("diag:%s:%s" % (meta[cid][1][3], diagkey[cid]) if cid in diagkey else
+                                                     "disturbance:%s:%s" % (meta[cid][1][3], meta[cid][2]))
             by_shape.setdefault(k, []).append((cid, what))
     cov["correspondence_disagreements"] = len(disturbed)
     cov["disturbances_by_shape"] = {k: len(v) for k, v in by_shape.items()}
@@ -383,7 +386,9 @@ def run(ctx):
                     {"input_b64": base64.b64encode(xml.encode()).decode(), "observed": what})
     cov["samples"] = [{"field": meta[c][1][4], "fault": meta[c][2], "faulty_text": meta[c][3]} for c in list(meta)[:3]]
     # computed exception shapes: each must be confirmed on the real library by its witness, and must be a known finding
-    wit = {"expr_forall_begin": "forall (i : int[0,1]) (", "expr_exists_begin": "exists (i : int[0,1]) (", "expr_sum_begin": "sum (i : int[0,1]) ("}
+    wit = {"expr_forall_begin": "forall (i : int[0,1]) (", "expr_exists_begin": "exists (i : int[0,1]) (", "expr_sum_begin": "sum (i : int[0,1]) (",
+           "expr_forall_dynamic_begin": "forall (i : nosuchtempl, (", "expr_exists_dynamic_begin": "exists (i : nosuchtempl, (",
+           "expr_sum_dynamic_begin": "sum (i : nosuchtempl, (", "expr_foreach_dynamic_begin": "foreach (i : nosuchtempl, ("}
     confirmed = {}
     if accepted:
         m = seeds[accepted[0]]
